@@ -22,6 +22,8 @@ pub fn esc(s: &str) -> String {
     o
 }
 
+static PRINTED: std::sync::Mutex<BTreeMap<String, u32>> = std::sync::Mutex::new(BTreeMap::new());
+
 #[derive(Default)]
 pub struct Report {
     pub stats: BTreeMap<String, u64>,
@@ -54,7 +56,15 @@ impl Report {
     }
     pub fn violation(&mut self, sig: &str, detail: &str, replay: &str) {
         self.violations += 1;
-        if self.violations <= 40 {
+        // the print cap is per signature (and process-wide): a flood of one kind - e.g. a listed
+        // known finding - must never hide a violation of another kind
+        let n = {
+            let mut m = PRINTED.lock().unwrap_or_else(|e| e.into_inner());
+            let e = m.entry(sig.to_string()).or_insert(0);
+            *e += 1;
+            *e
+        };
+        if n <= 12 {
             let mut o = std::io::stdout().lock();
             let _ = writeln!(o, "{{\"k\":\"violation\",\"sig\":\"{}\",\"detail\":\"{}\",\"replay\":\"{}\"}}", esc(sig), esc(detail), esc(replay));
             let _ = o.flush();
